@@ -43,6 +43,12 @@ def mk_remote(ex):
     return Fn(f, name='RemoteException')
 
 
+def is_remote_exception_model():
+    """is_remote_exception(e): True only for an EXCEPTION whose cause is a remote traceback (what a RemoteException unpickles to); never for the RemoteException wrapper itself"""
+    came_from_remote = z3.Function('has_remote_traceback_cause', Val, z3.BoolSort())
+    return Fn(lambda e, s, a, k, n: [('ok', s, z3.And(V.isinst(box(e, a[0]), 'BaseException'), came_from_remote(box(e, a[0]))))], name='is_remote_exception')
+
+
 # ================================================================ Worker.stream (default branch)
 class StreamUnit(Unit):
     prop = 'C02'
@@ -131,6 +137,7 @@ class SingleGetInput(Unit):
         st.ghost['none_out'] = z3.IntVal(0)
         st.ghost['shorted'] = z3.IntVal(0)
         ex.globals['RemoteException'] = ExcClass('RemoteException')
+        ex.globals['is_remote_exception'] = is_remote_exception_model()
         self.mk_remote = mk_remote(ex)
         return st
 
@@ -283,6 +290,7 @@ class SingleMain(Unit):
         ex.globals['queue.SimpleQueue'] = Fn(lambda e, s, a, k, n: [('ok', s, self.q_uid)])
         self.mk_remote = mk_remote(ex)
         ex.globals['RemoteException'] = self.mk_remote
+        ex.globals['is_remote_exception'] = is_remote_exception_model()
         st.ghost['nout'] = z3.IntVal(0)
         st.ghost['ended'] = z3.BoolVal(False)
         return st
@@ -521,6 +529,7 @@ class BatchMain(Unit):
         st.env.update(q_in=self.q_in, q_out=self.q_out)
         ex.globals['queue.SimpleQueue'] = Fn(lambda e, s, a, k, n: [('ok', s, self.q_uids)])
         ex.globals['RemoteException'] = mk_remote(ex)
+        ex.globals['is_remote_exception'] = is_remote_exception_model()
         ex.globals['Thread'] = ThreadCtor()
         ex.globals['SingleLane'] = Fn(lambda e, s, a, k, n: [('ok', s, Rec(e, 'SingleLane', immutable=True).init(s, maxsize=a[0]))])
         ex.globals['threading.Event'] = Fn(lambda e, s, a, k, n: (lambda ev: [('ok', ev.init(s.fork()) or s, ev)])(Event(e, 'called')))
@@ -687,6 +696,7 @@ class BuildBatches(Unit):
         st.ghost['events'] = ()
         st.ghost['full_tested_under_mutex'] = z3.BoolVal(False)
         ex.globals['RemoteException'] = ExcClass('RemoteException')
+        ex.globals['is_remote_exception'] = is_remote_exception_model()
         self.mk_remote = mk_remote(ex)
         return st
 
@@ -787,4 +797,78 @@ class BuildBatchesNoPre(BuildBatches):
     canaries = ()
 
 
-UNITS_BATCH = [GetInputBatch, BatchGetInput, BatchMain, BuildBatches, BuildBatchesNoPre]
+
+class WorkerInit(Unit):
+    """Worker.__init__: the batching parameters the rest of the worker runs on.  batch_size None -> 0; batch_wait_time: the caller's value, exactly --
+    0 stays 0 ("release at once") -- and only None gets a default (0 without batching, 0.01 with); a positive wait without batching is refused."""
+    prop = 'C09'
+    file = F
+    qual = 'Worker.__init__'
+    assert_mode = 'raise'
+    numeric_vals_are_ints = False
+    ignore_stmts = (r"self\.name = f.*",)
+    unreachable_ok = ('cpu_affinity = [cpu_affinity]', 'cpu_affinity = sorted(set(cpu_affinity))', 'os.sched_setaffinity(0, cpu_affinity)', 'if isinstance(cpu_affinity, int):')
+    canaries = (('an explicit wait of 0 is taken for "not given"', '            if batch_wait_time is None:\n                batch_wait_time = 0.01', '            if not batch_wait_time:\n                batch_wait_time = 0.01', ''),
+                ('batch size not stored', '        self.batch_size = batch_size\n', '        self.batch_size = 0\n', ''))
+
+    def setup(self, ex):
+        st = St()
+        self.me = Rec(ex, 'self')
+        self.bs_none, self.wt_none = z3.Bool('batch_size_is_None'), z3.Bool('batch_wait_time_is_None')
+        self.bs, self.wt = z3.Int('batch_size'), z3.Real('batch_wait_time')
+        st.assume(self.bs >= 0, self.wt >= 0)
+        st.env.update(self=self.me, worker_index=z3.Const('worker_index', Val), cpu_affinity=NONE)
+        # two-valued parameters: None or a number (four combinations explored as separate paths)
+        self.combos = None
+        return st
+
+    def run(self, override=None):
+        # explore the four None / number combinations of the two parameters
+        results = None
+        for bs_none in (True, False):
+            for wt_none in (True, False):
+                self._combo = (bs_none, wt_none)
+                r = Unit.run(self, override)
+                if results is None:
+                    results = r
+                else:
+                    results['obligations'] += r['obligations']
+                    for k, v in r['covers'].items():
+                        results['covers'].setdefault(k, []).extend(v)
+                    results['paths'] += r['paths']
+                    results['reached_lines'] = sorted(set(results.get('reached_lines', [])) | set(r.get('reached_lines', [])))
+                    if r['status'] != 'ok':
+                        results['status'], results['error'] = r['status'], r['error']
+        return results
+
+    def post(self, ex, outs):
+        bs_none, wt_none = self._combo
+        bs = z3.IntVal(0) if bs_none else self.bs
+        for k, s, p in outs:
+            if k in ('normal', 'return'):
+                got_bs, got_wt = self.me.get(s, 'batch_size'), self.me.get(s, 'batch_wait_time')
+                want_wt = (z3.If(bs <= 1, z3.RealVal(0), z3.RealVal('0.01')) if wt_none else self.wt)
+                from pyvc.core import as_num
+                ex.oblige(s, 'exit: batch_size is the caller\'s (None -> 0); batch_wait_time is the caller\'s value exactly (0 stays 0); only None gets the default: 0 without batching, 0.01 with',
+                          z3.And(as_num(ex, s, got_bs) == bs, as_num(ex, s, got_wt) == want_wt, z3.Implies(bs <= 1, as_num(ex, s, got_wt) == 0)))
+            else:
+                ex.oblige(s, 'exit(raise): only a positive batch_wait_time without batching is refused (AssertionError)', z3.And(V.isinst(p, 'AssertionError'), z3.BoolVal(not wt_none), bs <= 1, self.wt != 0))
+
+    def setup_env(self, st):
+        pass
+
+
+_orig_winit_setup = WorkerInit.setup
+
+
+def _winit_setup(self, ex):
+    st = _orig_winit_setup(self, ex)
+    bs_none, wt_none = self._combo
+    st.env['batch_size'] = NONE if bs_none else self.bs
+    st.env['batch_wait_time'] = NONE if wt_none else self.wt
+    return st
+
+
+WorkerInit.setup = _winit_setup
+
+UNITS_BATCH = [WorkerInit, GetInputBatch, BatchGetInput, BatchMain, BuildBatches, BuildBatchesNoPre]
